@@ -169,10 +169,11 @@ Proof.
   - apply irhash_eqb_spec.
   - intros a b [= ->]; reflexivity.
   - intros a b [= ->]; reflexivity.
-  - intros a b [= ->]; reflexivity.
-  - intros a b [= ->]; reflexivity.
-  - intros a i s q a' i' s' q' [= -> -> -> ->]. auto.
-  - intros a p a' p' [= -> ->]. auto.
+  - intros a b _ _ _ _ [= ->]; reflexivity.
+  - intros t _ E. destruct t as [|[k v] r]; [reflexivity|cbn in E; discriminate E].
+  - intros t _ E. destruct (vt_index t); [cbn in E; discriminate E|reflexivity].
+  - intros [r p] _ E. destruct r as [|[k v] r]; [|cbn in E; discriminate E].
+    destruct p; [cbn in E; discriminate E|reflexivity].
 Qed.
 
 (* ---- witnesses of the findings (computed in the structure-preserving instance) ------------------------- *)
